@@ -19,7 +19,13 @@ typedef struct {
 } set_t;
 
 static void *dlog[MAXE]; static int ndlog;
-static void dtor_cb(void *p) { if (ndlog < MAXE) dlog[ndlog++] = p; }
+/* a destructor may use the set it is called from: when armed, the destructor run by m_bst_remove() inserts a fresh element
+ * (the set is consistent at that point: the removed element is already out) */
+static m_bst_t *reent_tree; static void *reent_elem; static int reent_ret; static bool reent_ran;
+static void dtor_cb(void *p) {
+    if (ndlog < MAXE) dlog[ndlog++] = p;
+    if (reent_tree && reent_elem && !reent_ran) { reent_ran = true; reent_ret = m_bst_insert(reent_tree, reent_elem); }
+}
 
 static long n_cmp_calls;
 static int ptr_signed, ptr_locked;
@@ -52,6 +58,8 @@ static const char *ename(set_t *s, void *p) {
 #define BAD(key, ...) do { char _b[700]; snprintf(_b, sizeof(_b), __VA_ARGS__); vf_fail(key, "cmp=%s dtor=%d seed=%llu: %s | program: %s", s->user_cmp ? "user" : "default", s->with_dtor, cur_seed, _b, prog_txt); } while (0)
 
 static long long st_half_pairs, st_both_halves_sets, st_ops, st_rm_two_children, st_itr_rm, st_far_pairs, st_dtor, st_trav;
+static long long st_failed_allocs, st_reent_inserts;
+static bool inject_faults;
 
 static int m_find(set_t *s, void *key) { for (int i = 0; i < s->n; i++) if (model_cmp(s, key, s->model[i]) == 0) return i; return -1; }
 static void m_insert(set_t *s, void *e) {
@@ -169,9 +177,19 @@ static void op_insert(set_t *s, void *e) {
     if (s->n >= MAXN - 2) return;
     ptxt("ins(%s) ", ename(s, e));
     int present = m_find(s, e);
+    bool fault = inject_faults && (n_cmp_calls + s->n + n_elems) % 11 == 0;
+    if (fault) vf_fault_arm(1);
     int r = m_bst_insert(s->t, e);
+    fault = fault && vf_fault_disarm();
+    vf_fault_disarm();
     if (present >= 0) {
         if (r >= 0) BAD("C11/duplicate-accepted", "insert of %s returned %d although %s compares equal and is present", ename(s, e), r, ename(s, s->model[present]));
+    } else if (fault && r < 0) {
+        /* the node could not be allocated: the insert is refused and nothing changes (len is checked by the caller's verify) */
+        ptxt("[alloc failed] ");
+        st_failed_allocs++;
+        if (m_bst_len(s->t) != s->n) BAD("C11/len-mismatch", "after an insert refused for lack of memory (%d): len=%zd model=%d", r, m_bst_len(s->t), s->n);
+        if (m_bst_find(s->t, e)) BAD("C11/find", "element %s is found although its insert was refused for lack of memory", ename(s, e));
     } else {
         if (r != 0) BAD("C11/insert-refused", "insert of new element %s returned %d (no element comparing equal is present)", ename(s, e), r);
         m_insert(s, e);
@@ -182,7 +200,19 @@ static void op_remove(set_t *s, void *key) {
     ptxt("rm(%s) ", ename(s, key));
     int present = m_find(s, key);
     if (present >= 0 && has_two_children(s, s->model[present])) st_rm_two_children++;
+    /* now and then the destructor of the removed element inserts a fresh neighbour of it into the same set */
+    void *fresh = NULL;
+    if (present >= 0 && s->user_cmp && s->with_dtor && inject_faults && s->n < MAXN - 4 && (n_cmp_calls % 5) == 0) {
+        long k0 = ((elem_t *)s->model[present])->key;
+        for (int d = 0; d < 4 && !fresh; d++) {
+            long k = d == 0 ? k0 + 1 : d == 1 ? k0 - 1 : d == 2 ? k0 + 2 : k0 - 2;
+            elem_t probe = { -1, k };
+            if (m_find(s, &probe) < 0) fresh = new_elem(k);
+        }
+        if (fresh) { reent_tree = s->t; reent_elem = fresh; reent_ran = false; reent_ret = -9999; ptxt("[dtor inserts %s] ", ename(s, fresh)); }
+    }
     int r = m_bst_remove(s->t, key);
+    reent_tree = NULL; reent_elem = NULL;
     if (present < 0) {
         if (r >= 0) BAD("C11/remove-absent", "remove of absent key returned %d", r);
         expect_dtor(s, NULL, 0, "remove absent");
@@ -190,6 +220,13 @@ static void op_remove(set_t *s, void *key) {
         void *e = m_remove_at(s, present);
         if (r != 0) BAD("C11/remove-ret", "remove of present key returned %d", r);
         expect_dtor(s, &e, 1, "remove");
+        if (fresh) {
+            if (!reent_ran) BAD("C11/destructor-mismatch", "remove: the destructor did not run");
+            else if (reent_ret != 0) BAD("C11/insert-refused", "insert of new element %s from the destructor run by remove returned %d (no element comparing equal is present)", ename(s, fresh), reent_ret);
+            else { m_insert(s, fresh); st_reent_inserts++; }
+            if (m_bst_len(s->t) != s->n) BAD("C11/len-mismatch", "after remove whose destructor inserted %s: len=%zd model=%d", ename(s, fresh), m_bst_len(s->t), s->n);
+            if (reent_ret == 0 && m_bst_find(s->t, fresh) != fresh) BAD("C11/find", "element %s accepted by an insert made from the destructor run by remove is not found", ename(s, fresh));
+        }
     }
 }
 static void op_find(set_t *s, void *key) {
@@ -317,6 +354,7 @@ static void random_run(uint64_t seed, int maxops, bool sample) {
     set_t st, *s = &st; uint64_t live0 = vf_live();
     s_new(s, user_cmp, with_dtor);
     cur_seed = seed;
+    inject_faults = vf_chance(&r, 1, 3);       /* a third of the programs: failing allocations, destructors that insert */
     int nops = 1 + vf_below(&r, maxops);
     int keyrange = 4 + vf_below(&r, 200);
     void *pool[MAXN]; int npool = 0;
@@ -347,6 +385,7 @@ static void random_run(uint64_t seed, int maxops, bool sample) {
         h = vf_mix(h, o * 977 + s->n);
     }
     verify(s, "end", true);
+    inject_faults = false;
     s_free(s, live0);
     if (nontriv) vf_sig(h);
     if (sample) printf("SAMPLE cmp=%s dtor=%d seed=%llu: %.600s\n", user_cmp ? "user" : "default", with_dtor, (unsigned long long)seed, prog_txt);
@@ -370,6 +409,8 @@ int main(int argc, char **argv) {
     vf_stat("random_programs", nrand);
     vf_stat("ops", st_ops);
     vf_stat("removals_of_two_children_nodes", st_rm_two_children);
+    vf_stat("inserts_refused_by_injected_allocation_failure", st_failed_allocs);
+    vf_stat("inserts_made_from_a_destructor", st_reent_inserts);
     vf_stat("iterator_removals", st_itr_rm);
     vf_stat("far_apart_pointer_keys", st_far_pairs);
     vf_stat("pointer_keys_2pow63_apart", st_half_pairs);
